@@ -13,7 +13,7 @@ ID = "C15"
 LEVEL = "exploration"
 DECIDING = ["C15.volumes"]
 RULE = ("grids (algorithm, N): cube4D and randomQ (both algorithms of one N in the same process, alternating order), quick N in {1..12,16,20,30,40,113}, thorough every N in 1..80 plus 100,113,120,150; 3-D grids with N in {1,2,3} for the "
-        "equal-share estimate; every cell of every grid is judged against the Monte-Carlo measure. Non-trivial = N>=4; distinct by (algorithm, N)")
+        "equal-share estimate; rotation grids whose volumes were first used by FullGrid.get_total_volumes / get_full_prefactors; every cell of every grid is judged against the Monte-Carlo measure. Non-trivial = N>=4; distinct by (algorithm, N)")
 ASSUMPTIONS = ["true measures are Monte-Carlo estimates; decisions use 4 standard errors and sequential enlargement of the sample",
                "bounds of the statement: sum within 12% of pi^2, every cell within 30% of its measure"]
 EXHAUSTIVE = {"quick": False, "thorough": False}
@@ -143,6 +143,23 @@ def drive(alg, N):
         REC.crashed("C15.call_raised", e)
 
 
+def drive_consumers():
+    """history: the package's own consumers of the rotation volumes run first (FullGrid.get_total_volumes, get_full_prefactors, the writer),
+    then the volumes of the same live rotation grid are requested again and judged by the monitor"""
+    from molgri.space.fullgrid import FullGrid
+    for b, f in (("cube4D_8", 2), ("randomQ_9", 3.7), ("12", 0.5)):
+        REC.begin_case({"kind": "volumes after their consumers", "b": b, "factor": f}, cls="volumes after their consumers")
+        try:
+            fg = FullGrid(b, "4", "[0.1, 0.2]", factor=f)
+            fg.get_total_volumes()
+            fg.get_full_prefactors()
+            fg.get_total_volumes()
+            fg.b_rotations.get_spherical_voronoi().get_voronoi_volumes()
+            REC.nontrivial_case(("consumers", b, f))
+        except Exception as e:
+            REC.crashed("C15.call_raised", e)
+
+
 def shards(tier, seed):
     Ns = list(range(1, 13)) + [16, 20, 30, 40, 113] if tier == "quick" else list(range(1, 81)) + [100, 113, 120, 150]
     # both rotation algorithms of one N run in the SAME process, in alternating order (nothing may be shared between two grids of equal size)
@@ -158,6 +175,7 @@ def shards(tier, seed):
         load[k] += c
     out = [{"jobs": b} for b in buckets if b]
     out[-1]["jobs"] = out[-1]["jobs"] + [[a, N] for a in ("ico", "cube3D", "randomS") for N in (1, 2, 3)]
+    out[-1]["consumers"] = True
     return out
 
 
@@ -165,6 +183,8 @@ def run_shard(spec):
     install()
     for alg, N in spec["jobs"]:
         drive(alg, N)
+    if spec.get("consumers"):
+        drive_consumers()
 
 
 def replay(case):
